@@ -112,7 +112,6 @@ void ShapeConnectionPin::commonInitForShapeConnection(void)
     }
 
     m_router = m_shape->router();
-    m_shape->addConnectionPin(this);
     
     // Create a visibility vertex for this ShapeConnectionPin.
     VertID id(m_shape->id(), kShapeConnectionPin, 
@@ -131,6 +130,11 @@ void ShapeConnectionPin::commonInitForShapeConnection(void)
     {
         vertexVisibility(m_vertex, nullptr, true, true);
     }
+
+    // Register with the shape last: when the router is not using
+    // transactions this processes the change straight away, which needs
+    // the pin's vertex to exist.
+    m_shape->addConnectionPin(this);
 }
 
 
@@ -150,7 +154,6 @@ ShapeConnectionPin::ShapeConnectionPin(JunctionRef *junction,
 {
     COLA_ASSERT(m_junction != nullptr);
     m_router = m_junction->router();
-    m_junction->addConnectionPin(this);
     
     // Create a visibility vertex for this ShapeConnectionPin.
     // XXX These IDs should really be uniquely identifiable in case there
@@ -165,6 +168,9 @@ ShapeConnectionPin::ShapeConnectionPin(JunctionRef *junction,
     {
         vertexVisibility(m_vertex, nullptr, true, true);
     }
+
+    // Register with the junction last (see above).
+    m_junction->addConnectionPin(this);
 }
 
 
